@@ -774,6 +774,33 @@ example : (streamRead false [115, 10, 1, 2, 3] 0 (some (-4))).map Prod.fst = .ok
 example : (streamRead false [115, 10, 1, 2, 3] 0 (some 1000000)).map Prod.fst = .ok [1, 2, 3] := by decide
 example : (streamRead false [115, 10, 1, 2, 3] 0 none).map Prod.fst = .ok [] := by decide
 
+/-! ## Round 6: from the file to the payload -/
+
+/-- The property in one statement, from the bytes of the file to the payload: for every chain of
+stages (any length, any of the five filters under full or abbreviated names, any predictor
+setting), every payload `x` and every encoding `z` of it, a file that holds `z` between the keyword
+line and `endstream` (any marker-free `tail` in between, `Length = |z|`) is read by the `stream`
+branch as exactly `z`, which `PDFStream.decode` turns into exactly `x`. -/
+theorem file_chain_rt {inflate : Bytes → Bytes} (stages : List (Stage inflate)) (x z : Bytes)
+    (h : ChainEncodes stages x z) (pre kw eol0 tail q eol rest : Bytes)
+    (hkw : ∀ c ∈ kw, c ≠ 10 ∧ c ≠ 13)
+    (heol0 : EolOk eol0 (z ++ (tail ++ ENDSTREAM_MARK ++ q ++ eol ++ rest)))
+    (htail : findSub ENDSTREAM_MARK (tail ++ ENDSTREAM_MARK) = some tail.length)
+    (hq : ∀ c ∈ q, c ≠ 10 ∧ c ≠ 13) (heol : EolOk eol rest) :
+    (streamRead false (pre ++ kw ++ eol0 ++ (z ++ (tail ++ ENDSTREAM_MARK ++ q ++ eol ++ rest))) pre.length
+        (some (z.length : Int))).bind
+      (fun r => streamDecode inflate (.list (stages.map (·.filt.1))) (.list (stages.map (·.filt.2))) r.1)
+      = .ok x := by
+  rw [stream_read_exact pre kw eol0 z tail q eol rest hkw heol0 htail hq heol]
+  exact stream_chain_rt stages x z h
+
+example : (streamRead false ([60, 60, 62, 62] ++ [115, 116, 114, 101, 97, 109] ++ [13, 10] ++
+      (ahxEnc [1, 2] 0 (pngEnc 2 2 8 [4] [[1, 2, 3, 4]]) ++ ([10] ++ ENDSTREAM_MARK ++ [] ++ [10] ++ [101]))) 4
+      (some ((ahxEnc [1, 2] 0 (pngEnc 2 2 8 [4] [[1, 2, 3, 4]])).length : Int))).bind
+    (fun r => streamDecode id (.list [[65, 72, 120], [70, 108]])
+      (.list [none, some { predictor := some 12, colors := some 2, columns := some 2, bpc := none }]) r.1)
+    = .ok [1, 2, 3, 4] := by decide
+
 /-! ## The pinned code (before the two `fix:` commits) violates the property
 
 `apply_png_predictor` of the pinned tree started with `line_above = columns` zero bytes and used
